@@ -17,6 +17,7 @@
 # LIABILITY, WHETHER IN AN ACTION OF CONTRACT, TORT OR OTHERWISE, ARISING FROM,
 # OUT OF OR IN CONNECTION WITH THE SOFTWARE OR THE USE OR OTHER DEALINGS IN
 # THE SOFTWARE.
+from threading import Lock
 from time import time
 from operator import itemgetter
 import json
@@ -176,6 +177,8 @@ class CodespeedReporter(Reporter):
         self._incremental_report = self._cfg.report_incrementally
         self._cache_for_seconds = 30
         self._cache = {}
+        # the worker threads of the parallel scheduler report completed runs concurrently
+        self._cache_lock = Lock()
         self._last_send = time()
         self.ui = ui
 
@@ -184,21 +187,28 @@ class CodespeedReporter(Reporter):
             return
 
         # ok, talk to codespeed immediately
-        self._cache[run_id] = self._format_for_codespeed(run_id, statistics)
+        result = self._format_for_codespeed(run_id, statistics)
+        with self._cache_lock:
+            self._cache[run_id] = result
 
         if time() - self._last_send >= self._cache_for_seconds:
             self._send_and_empty_cache()
 
     def _send_and_empty_cache(self):
-        if not self._cache:
+        # take the results out of the cache before sending them, so that every result
+        # is sent by exactly one thread, and none that is added meanwhile gets lost
+        with self._cache_lock:
+            cache = self._cache
+            self._cache = {}
+
+        if not cache:
             return
 
-        if len(self._cache) == 1:
-            run_id = list(self._cache.keys())[0]
+        if len(cache) == 1:
+            run_id = list(cache.keys())[0]
         else:
             run_id = None
-        self._send_to_codespeed(list(self._cache.values()), run_id)
-        self._cache = {}
+        self._send_to_codespeed(list(cache.values()), run_id)
 
     def _result_data_template(self):
         # all None values have to be filled in
